@@ -4,6 +4,7 @@
   (`SyModel.Engine.Model`: `perform`, `execTask`).  The theorems are in `SyModel.Props.Refine`.
 -/
 import SyModel.Lemmas.StepsCrash
+import SyModel.Lemmas.EngineDirBase
 set_option linter.unusedVariables false
 namespace SyModel.Engine
 
@@ -583,7 +584,7 @@ theorem perform_nothing (cfg : Cfg) (w : World) (t : Task) (h : t.writes) (hp : 
 
 theorem perform_dir (cfg : Cfg) (w : World) (t : Task) (h : t.writes) (hdry : cfg.dryRun = false)
     (hp : t.payload = .dir) :
-    perform cfg w t = (mkdirAll w.dst t.rel).map fun d => { w with dst := d } := by
+    perform cfg w t = (mkdirAll (dirBase t.act w.dst t.rel) t.rel).map fun d => { w with dst := d } := by
   unfold perform
   rcases h with h | h <;> simp [h, hp, hdry]
 
@@ -773,10 +774,6 @@ structure TaskFits (cfg : Cfg) (thr : Nat) (sfx : String) (h : Hint) (w : World)
       away what is there, the entry level has no working file at all) -/
   tempFree : usesDelta cfg thr h (w.dst.get? t.rel) t = true →
     w.dst.get? (tempOf sfx t.rel) = none ∧ tempOf sfx t.rel ≠ t.rel
-  /-- an `update` task never carries a directory: the step level (and `Transferrer::update`,
-      transfer.rs: `Ok(None)` for directories) does nothing, the entry level runs `mkdirAll`;
-      the planner never emits such a task (`plan_no_update_dir`) -/
-  noUpdateDir : t.act = .update → t.payload ≠ .dir
   /-- with `-H`, a task that WRITES (create / update) is not a later member of a source hard-link
       group: those are linked to the first member's destination (`linkFile`/`relinkFile`), which the
       step level does not model.  (Skips and deletes never consult the link map.) -/
@@ -823,16 +820,64 @@ theorem task_refines {cfg : Cfg} {thr : Nat} (ch : Nat) {sfx : String} {h : Hint
         unfold stepsOfH; rcases hw with h' | h' <;> simp [hdry, h', hpay]
       rw [this]; unfold taskDst; rw [perform_nothing _ _ _ hw hpay]; rfl
     | dir =>
-      have hact : t.act = .create := by
-        rcases hw with h' | h'
-        · exact h'
-        · exact absurd hpay (hf.noUpdateDir h')
-      have : stepsOfH cfg thr ch sfx h (w.dst.get? t.rel) t = dirSteps t.rel := by
-        unfold stepsOfH; simp [hdry, hact, hpay]
-      rw [this, taskDst_eq_getD, perform_dir _ _ _ hw hdry hpay]
-      cases hm : mkdirAll w.dst t.rel with
+      -- both directory tasks are `create_dir_all` on `dirBase`: the destination itself for a creation, the
+      -- destination with a link at the path unlinked for an update (fix 862af11)
+      have hbase : applyAll (stepsOfH cfg thr ch sfx h (w.dst.get? t.rel) t) (ofMap w.dst) =
+          applyAll (dirSteps t.rel) (ofMap (dirBase t.act w.dst t.rel)) := by
+        rcases hw with hact | hact
+        · have : stepsOfH cfg thr ch sfx h (w.dst.get? t.rel) t = dirSteps t.rel := by
+            unfold stepsOfH; simp [hdry, hact, hpay]
+          rw [this, dirBase_of_ne_update _ _ _ (by rw [hact]; simp)]
+        · have : stepsOfH cfg thr ch sfx h (w.dst.get? t.rel) t =
+              Step.unlinkIfSymlink t.rel :: dirSteps t.rel := by
+            unfold stepsOfH; simp [hdry, hact, hpay]
+          rw [this, applyAll_cons]
+          congr 1
+          rw [apply_single _ rfl]
+          simp only [Step.path, dirBase, hact, ↓reduceIte, unlinkLink]
+          cases hg : w.dst.get? t.rel with
+          | none =>
+            simp only [ofMap_apply, hg, Option.map_none, Step.nodeFn]
+            rw [← ofMap_eq_none.mpr hg, upd_self]
+          | some v =>
+            cases v with
+            | symlink s' =>
+              simp only [ofMap_apply, hg, Option.map_some, embed, Step.nodeFn]
+              rw [ofMap_erase]
+            | dir =>
+              simp only [ofMap_apply, hg, Option.map_some, embed, Step.nodeFn]
+              have : ofMap w.dst t.rel = some .dir := by simp [ofMap_apply, hg, embed]
+              rw [← this, upd_self]
+            | file o =>
+              simp only [ofMap_apply, hg, Option.map_some, embed, Step.nodeFn]
+              have : ofMap w.dst t.rel = some (.file o.content o.size o.mtime) := by simp [ofMap_apply, hg, embed]
+              rw [← this, upd_self]
+      rw [hbase, taskDst_eq_getD, perform_dir _ _ _ hw hdry hpay]
+      -- from here on the proof is about `dirBase`, which has the same ancestors as `w.dst`
+      have hparB : ∀ q ∈ ancestors t.rel, (dirBase t.act w.dst t.rel).get? q = none ∨
+          (dirBase t.act w.dst t.rel).get? q = some .dir := by
+        intro q hq
+        rw [dirBase_get?_ne _ _ _ _ (ancestors_ne hq)]; exact hpar q hq
+      cases hm : mkdirAll (dirBase t.act w.dst t.rel) t.rel with
       | some d' => simpa using dirSteps_refines _ _ d' hm
       | none =>
+        -- a failing `create_dir_all` means no link was dropped: `dirBase` is the destination itself
+        have hB : dirBase t.act w.dst t.rel = w.dst := by
+          by_cases hu : t.act = .update
+          · by_cases hl : ∃ s, w.dst.get? t.rel = some (.symlink s)
+            · exfalso
+              obtain ⟨s', hs'⟩ := hl
+              obtain ⟨x, hx0, hxp, hxn, hxd⟩ := mkdirAll_none _ _ hm
+              rcases prefix_cases hx0 hxp with hx | hx
+              · rcases hparB x hx with h' | h'
+                · exact absurd h' hxn
+                · exact absurd h' hxd
+              · rw [hx] at hxn
+                apply hxn
+                simp [dirBase, hu, unlinkLink, hs', Map.get?_erase_same]
+            · exact dirBase_of_not_link _ _ _ (fun s hs => hl ⟨s, hs⟩)
+          · exact dirBase_of_ne_update _ _ _ hu
+        rw [hB] at hm ⊢
         simp only [Option.map_none, Option.getD_none]
         obtain ⟨x, hx0, hxp, hxn, hxd⟩ := mkdirAll_none _ _ hm
         have hxe : x = t.rel := by
@@ -1060,7 +1105,7 @@ theorem taskDst_effect (cfg : Cfg) (w : World) (t : Task)
     | nothing => left; unfold taskDst; rw [perform_nothing _ _ _ hw hpay]
     | dir =>
       rw [taskDst_eq_getD, perform_dir _ _ _ hw hdry hpay]
-      cases hm : mkdirAll w.dst t.rel with
+      cases hm : mkdirAll (dirBase t.act w.dst t.rel) t.rel with
       | none => left; rfl
       | some d =>
         simp only [Option.map_some, Option.getD_some]
@@ -1070,7 +1115,20 @@ theorem taskDst_effect (cfg : Cfg) (w : World) (t : Task)
           refine ⟨hw, hc.2, Or.inr trivial, ?_⟩
           intro q hq hqx
           rw [hg]; simp [hq, isPrefix_trans hqx hc.2]
-        · left; rw [hg]; simp [hc]
+        · by_cases hxr : x = t.rel
+          · -- only the root `[]` is a prefix of itself and yet not covered above: nothing happens there unless a
+            -- (degenerate) link at the root is dropped — then every prefix condition is vacuous
+            have hx0 : x = [] := by
+              apply Classical.byContradiction
+              intro hx0; exact hc ⟨hx0, hxr ▸ isPrefix_refl _⟩
+            right; left
+            refine ⟨hw, hxr ▸ isPrefix_refl _, Or.inr trivial, ?_⟩
+            intro q hq hqx
+            rw [hx0] at hqx
+            cases q with
+            | nil => exact absurd rfl hq
+            | cons a r => simp [isPrefix] at hqx
+          · left; rw [hg]; simp only [hc, ↓reduceIte]; exact dirBase_get?_ne _ _ _ _ hxr
     | symlink text =>
       have hnd : t.payload ≠ .dir := by rw [hpay]; simp
       have he : taskDst cfg w t = ((writeSymlink w t.rel text).map (·.dst)).getD w.dst := by
@@ -1177,7 +1235,6 @@ structure RunOK (cfg : Cfg) (sfx : String) (tasks : List Task) (dst : Map DNode)
   fresh : TempFresh sfx tasks (ofMap dst)
   closed : Closed dst
   parents : ∀ t ∈ tasks, t.writes → ∀ q ∈ ancestors t.rel, dst.get? q = none ∨ dst.get? q = some .dir
-  noUpdateDir : ∀ t ∈ tasks, t.act = .update → t.payload ≠ .dir
   noLinks : NoLinkTasks cfg tasks
 
 /-- what a task still to be run needs from the current destination `cur` (`dst0`: the destination
@@ -1225,7 +1282,7 @@ theorem pending_step {cfg : Cfg} {sfx : String} {tasks : List Task} {w0 : SWorld
   -- a pending write below a path that `t'` rewrites as a file / link
   have F1 : t.writes → ∀ q, isPrefix q t.rel = true → t'.writes → q = t'.rel → t'.payload ≠ .dir → False := by
     intro hw q hq hw' hqe hnd
-    have := hok.tree t ht t' ht' (Ne.symm hne) hnd hw'.ne_delete hw'.ne_skip
+    have := hok.tree t ht t' ht' (Ne.symm hne) (fun h => absurd h hnd) hw'.ne_delete hw'.ne_skip
     rw [← hqe, hq] at this; cases this
   -- a pending write below a path that `t'` deletes
   have F2 : t.writes → ∀ y, isPrefix t'.rel y = true → isPrefix y t.rel = true → t'.act = .delete → False := by
@@ -1262,7 +1319,7 @@ theorem pending_step {cfg : Cfg} {sfx : String} {tasks : List Task} {w0 : SWorld
     intro hw hnd
     rcases E t.rel with h | ⟨hw', hpre, _, _⟩ | ⟨_, he, _⟩ | ⟨hd', hpre, _, _⟩
     · rw [h]; exact hp.old hw hnd
-    · have := hok.tree t' ht' t ht hne hnd hw.ne_delete hw.ne_skip
+    · have := hok.tree t' ht' t ht hne (fun h => absurd h hnd) hw.ne_delete hw.ne_skip
       rw [hpre] at this; cases this
     · exact absurd he.symm hne
     · exact (F2 hw t.rel hpre (isPrefix_refl _) hd').elim
@@ -1306,7 +1363,6 @@ theorem pending_fits {cfg : Cfg} {thr : Nat} {sfx : String} {tasks : List Task} 
     intro he
     have := h.fresh.notPlanned t ht hm t ht
     rw [he, isPrefix_refl] at this; cases this
-  noUpdateDir := h.noUpdateDir t ht
   noLinkMember := by
     intro hw m n hpay hH hn
     exact (not_linkTask_member (h.noLinks t ht) hw hpay hH hn).elim
@@ -1385,33 +1441,60 @@ theorem tasks_run_refines {cfg : Cfg} {thr : Nat} (ch : Nat) {sfx : String} {tas
 
 /-! ### the planner -/
 
-theorem planEntry_no_update_dir (cfg : Cfg) (dst : Map DNode) (e : SEntry) :
-    (planEntry cfg dst e).act = .update → (planEntry cfg dst e).payload ≠ .dir := by
+/-- the planner emits an `update` that carries a directory exactly for a directory entry over a destination
+    symlink (the replacement of fix 862af11) -/
+theorem planEntry_update_dir_iff (cfg : Cfg) (dst : Map DNode) (e : SEntry) :
+    ((planEntry cfg dst e).act = .update ∧ (planEntry cfg dst e).payload = .dir) ↔
+      (e.kind = .dir ∧ ∃ s, dst.get? e.rel = some (.symlink s)) := by
   unfold planEntry
   split
-  · intro h; simp only at h; split at h <;> cases h
-  · intro _; simp
-  · split
-    · intro _; simp
-    · split <;> (intro _; simp)
-    · split <;> (intro _; simp)
+  · rename_i hk
+    simp only [hk, true_and, and_true]
+    split
+    · rename_i hg; simp [hg]
+    · rename_i s hg; simp [hg]
+    · rename_i h1 h2
+      simp only [reduceCtorEq, false_iff, not_exists]
+      intro s hs; exact h2 s hs
+  · rename_i m n hk; simp [hk]
+  · rename_i text tgt hk
+    simp only [hk, reduceCtorEq, false_and, iff_false, not_and]
+    intro _
+    split
+    · simp
+    · split <;> simp
+    · split <;> simp
 
-/-- the planner never emits an `update` that carries a directory -/
-theorem plan_no_update_dir (cfg : Cfg) (scan : List SEntry) (dst : Map DNode) :
-    ∀ t ∈ plan cfg scan dst, t.act = .update → t.payload ≠ .dir := by
-  intro t ht hu
+/-- every `update` with a directory payload in a plan replaces a destination symlink -/
+theorem plan_update_dir_link (cfg : Cfg) (scan : List SEntry) (dst : Map DNode) :
+    ∀ t ∈ plan cfg scan dst, t.act = .update → t.payload = .dir → ∃ s, dst.get? t.rel = some (.symlink s) := by
+  intro t ht hu hp
   have hdel : t ∈ planDeletions (scanFilter cfg scan) scan dst → False := by
     intro h
     unfold planDeletions at h
     obtain ⟨p, _, rfl⟩ := List.mem_map.mp h
     cases hu
+  have key : ∀ e, t = planEntry cfg dst e → ∃ s, dst.get? t.rel = some (.symlink s) := by
+    intro e he
+    subst he
+    have hrel : (planEntry cfg dst e).rel = e.rel := by
+      unfold planEntry
+      split
+      · rfl
+      · rfl
+      · split
+        · rfl
+        · split <;> rfl
+        · split <;> rfl
+    rw [hrel]
+    exact ((planEntry_update_dir_iff cfg dst e).1 ⟨hu, hp⟩).2
   unfold plan at ht
   simp only at ht
   split at ht
   · rcases List.mem_append.mp ht with h | h
-    · obtain ⟨e, _, rfl⟩ := List.mem_map.mp h; exact planEntry_no_update_dir cfg dst e hu
+    · obtain ⟨e, _, rfl⟩ := List.mem_map.mp h; exact key e rfl
     · exact (hdel h).elim
-  · obtain ⟨e, _, rfl⟩ := List.mem_map.mp ht; exact planEntry_no_update_dir cfg dst e hu
+  · obtain ⟨e, _, rfl⟩ := List.mem_map.mp ht; exact key e rfl
 
 /-- a run that the deletion guard does not refuse is the fold of `execTask` over the plan -/
 theorem run_dst_of_not_refused (cfg : Cfg) (scan : List SEntry) (dst : Map DNode) (nextIno : Nat)
